@@ -54,10 +54,12 @@ structure RawProg where
   flags : List Nat
   rt : List REntry
   inh : List (String × Nat × Nat × Nat)
+  hb : Int := -1
 
 def parseTbl (line : String) : Option RawProg :=
   match toks line with
-  | ["tbl", name, id, nvt, nvd, ft, fl, inh] => do
+  | ["tbl", name, id, nvt, nvd, ft, fl, hb, inh] => do
+    let hb ← (← kv hb "hb").toInt?
     let id ← (← kv id "id").toNat?
     let nvt ← (← kv nvt "nvt").toNat?
     let nvd ← (← kv nvd "nvd").toNat?
@@ -75,7 +77,7 @@ def parseTbl (line : String) : Option RawProg :=
       match e.splitOn ":" with
       | [n, a, b, c] => do some (n, ← a.toNat?, ← b.toNat?, ← c.toNat?)
       | _ => none
-    some { name, id, nvt, nvd, ft, flags := sl.map (·.1), rt := sl.map (·.2), inh }
+    some { name, id, nvt, nvd, ft, flags := sl.map (·.1), rt := sl.map (·.2), inh, hb }
   | _ => none
 
 structure Dump where
@@ -106,6 +108,7 @@ def Dump.world (d : Dump) : World :=
   let idx (n : String) : Nat := (d.raws.findIdx? (·.name == n)).getD d.raws.length
   { progs := d.raws.map fun r =>
       { name := r.name, id := r.id, nvt := r.nvt, nvd := r.nvd, ft := r.ft, flags := r.flags, rt := r.rt,
+        heartBeat := if r.hb < (0 : Int) then none else some (Int.toNat r.hb),
         inherit := r.inh.map fun (n, a, b, c) => { prog := idx n, fio := a, vio := b, typeMod := c } } }
 
 def Dump.key (d : Dump) (n : String) : Option Nat := (d.names.find? (·.1 == n)).map (·.2)
@@ -160,6 +163,7 @@ structure Parsed where
 
 def parseOrigin : String → Option Origin
   | "co" => some .co | "com" => some .com | "drv" => some .drv | "cot" => some .cot | "rco" => some .rco
+  | "hb" => some .hb
   | _ => none
 
 def parseCase (lines : List String) : Parsed :=
@@ -220,7 +224,7 @@ def buildWorld (p : Parsed) (d : Dump) : World :=
     -- the hypothesis of `built_alias_flags_agree`, evaluated on every program built; a violation is made visible
     -- in the program name, i.e. in the compared `tbl` line
     let name' := if aliasOrdered st.slots then name else name ++ "!alias-not-ordered"
-    { progs := w.progs ++ [{ finish name id st with name := name' }] }) { progs := [] }
+    { progs := w.progs ++ [{ finish name id st (d.key "heart_beat") with name := name' }] }) { progs := [] }
 
 def runModel (body : List String) : List String :=
   let (input, dumped) := splitJudge body
@@ -252,6 +256,7 @@ def runModel (body : List String) : List String :=
           | _ => l
         { s with objs, out := (lines.map Ev.line).reverse ++ s.out }
       | .call o oid fn =>
+        if o == .hb then doHeartBeat w s oid fn else
         match d.key fn with
         | some k => doCall w s o oid fn k
         | none => { s with out := Ev.line s!"bad-name {fn}" :: s.out }
